@@ -26,6 +26,28 @@ pub fn voucher_bits(v: raffle::Voucher) -> u64 {
     unsafe { std::mem::transmute::<raffle::Voucher, u64>(v) }
 }
 
+/// Base times whose (perfectly valid) voucher has a remarkable bit pattern: all zeroes, one,
+/// all ones, only the top bit.  Vouching is a bijection of u64 for fixed parameters
+/// (`(v + unoffset) * (unscale ^ TAG) + t == SUM` in wrapping arithmetic), so each pattern
+/// belongs to exactly one base time; the table is computed from the published parameters and
+/// every entry is verified against `vouch` before use.
+pub fn remarkable_bases() -> &'static [u64] {
+    use std::sync::OnceLock;
+    static TABLE: OnceLock<Vec<u64>> = OnceLock::new();
+    TABLE.get_or_init(|| {
+        const UNOFFSET: u64 = 0xfc1da7b1b77c57cb;
+        const UNSCALE: u64 = 0x594b9cce3091464a;
+        let wanted_sum = u64::from_le_bytes(*b"Vouch!OK");
+        let checking_tag = u64::from_le_bytes(*b"Checking");
+        [0u64, 1, u64::MAX, 1 << 63, 0x0101_0101_0101_0101]
+            .into_iter()
+            .map(|v| (v, wanted_sum.wrapping_sub(v.wrapping_add(UNOFFSET).wrapping_mul(UNSCALE ^ checking_tag))))
+            .filter(|(v, t)| voucher_bits(VOUCH.vouch(*t)) == *v)
+            .map(|(_, t)| t)
+            .collect()
+    })
+}
+
 #[derive(Clone, Copy, Debug, PartialEq, Eq, Hash, Serialize, Deserialize)]
 pub enum Base {
     /// base = floor(local ms) - diff  (so that local - base = diff)
@@ -263,6 +285,7 @@ fn base_strategy() -> impl Strategy<Value = Base> {
         3 => (u64::MAX - 70_000..=u64::MAX).prop_map(Base::Abs),
         1 => any::<u64>().prop_map(Base::Abs),
         1 => ((1u64 << 63) - 5..(1u64 << 63) + 5).prop_map(Base::Abs),
+        1 => (0usize..8).prop_map(|k| Base::Abs(remarkable_bases().get(k % remarkable_bases().len().max(1)).copied().unwrap_or(0))),
     ]
 }
 
